@@ -45,6 +45,8 @@ def universes(size):
                  "contains": [("contains", (c,)) for c in (["a", "ab", "z"] + (["", "abc"] if big else []))],
                  "regex": [("regex", (r,)) for r in (["a+", "^ab$", "z"] + (["", "^a.c$", "(" ] if big else []))]},
     }
+    # a min-only and a max-only form are two different refinements of the same method: both orders must be rejected alike
+    U["str"]["refs"]["len_second_form"] = [("len", (1, ...)), ("len", (..., 3)), ("len", (2,))]
     U["list"] = {
         "values": [None, "typed", "exact2", "head1", "tail1", "contains1", "empty", "ell"],
         "refs": {"len": [x for x in lens]},
